@@ -4,6 +4,7 @@ import (
 	"fmt"
 	"math"
 	"sort"
+	"sync"
 
 	xrand "golang.org/x/exp/rand"
 
@@ -29,7 +30,8 @@ func init() {
 			"gonum's standard-normal ziggurat has about 32 bits of resolution, so exact repeats between normal draws are legitimate: freshness for normal generators demands < 1% equal positions, for uniform ones none",
 		},
 		FloorQuick: 40, FloorThor: 40,
-		Run: runC18,
+		Run:    runC18,
+		Finish: finishC18,
 	})
 }
 
@@ -191,21 +193,200 @@ func corr(a, b []float64) float64 {
 	return sab / math.Sqrt(saa*sbb)
 }
 
+// c18FirstDraws runs once per child process, before the process has drawn anything: 64 uniform-family draws, then 64
+// normal-family draws - the first words of whatever generators the library owns (the global source is seeded differently in every
+// process first, so under independence the 16 processes contribute independent pairs). The pairs (k-th uniform, k-th normal)
+// are binned into contingency tables (features of the uniform draw: its value and its dyadic fractional parts; features of the
+// normal draw: sign and quartile of |z|), summed over the processes by the parent and tested for independence (finishC18).
+var c18Once sync.Once
+
+func c18FirstDraws(k *fw.K, shard int64) {
+	c18Once.Do(func() {
+		xrand.Seed(uint64(k.Rng.Int63()) ^ uint64(shard)*0x9e3779b97f4a7c15)
+		tu, e1 := tensor.RandU([]int{64}, 0, 1, nil)
+		tz, e2 := tensor.RandN([]int{64}, 0, 1, nil)
+		if e1 != nil || e2 != nil {
+			return
+		}
+		u, e1 := rt.Read(tu)
+		z, e2 := rt.Read(tz)
+		if e1 != nil || e2 != nil {
+			return
+		}
+		for i := range u.Data {
+			q := 0
+			for _, b := range []float64{0.31863936396437514, 0.6744897501960817, 1.1503493803760079} {
+				if math.Abs(z.Data[i]) > b {
+					q++
+				}
+			}
+			sg := 0
+			if z.Data[i] < 0 {
+				sg = 1
+			}
+			for _, m := range []int{0, 7, 14, 21, 28, 35} {
+				x := math.Ldexp(u.Data[i], m)
+				f := int((x - math.Floor(x)) * 8)
+				k.Count(fmt.Sprintf("firstdraws/m%02d/u%d/absz%d", m, f, q), 1)
+				k.Count(fmt.Sprintf("firstdraws/m%02d/u%d/sign%d", m, f, sg), 1)
+			}
+		}
+		k.Count("processes_whose_first_draws_were_recorded", 1)
+	})
+}
+
+// finishC18 (parent): chi-square test of independence on every contingency table of the first draws of the child processes.
+func finishC18(c *fw.Ctx, m *fw.Report, cov map[string]any) {
+	tables := map[string]map[[2]int]float64{}
+	for name, n := range m.Counters {
+		var mm, f, q int
+		var kind string
+		if _, err := fmt.Sscanf(name, "firstdraws/m%02d/u%d/absz%d", &mm, &f, &q); err == nil {
+			kind = fmt.Sprintf("fractional part of u*2^%d (8 bins) x quartile of |z|", mm)
+		} else if _, err := fmt.Sscanf(name, "firstdraws/m%02d/u%d/sign%d", &mm, &f, &q); err == nil {
+			kind = fmt.Sprintf("fractional part of u*2^%d (8 bins) x sign of z", mm)
+		} else {
+			continue
+		}
+		if tables[kind] == nil {
+			tables[kind] = map[[2]int]float64{}
+		}
+		tables[kind][[2]int{f, q}] += float64(n)
+	}
+	tested := 0
+	for kind, t := range tables {
+		rows, cols, total := map[int]float64{}, map[int]float64{}, 0.
+		for rc, n := range t {
+			rows[rc[0]] += n
+			cols[rc[1]] += n
+			total += n
+		}
+		if total < 512 {
+			continue // too few processes contributed (a replay, a single shard): no verdict from this table
+		}
+		chi := 0.
+		for r, rn := range rows {
+			for cc, cn := range cols {
+				e := rn * cn / total
+				d := t[[2]int{r, cc}] - e
+				chi += d * d / e
+			}
+		}
+		df := float64((len(rows) - 1) * (len(cols) - 1))
+		tested++
+		// Wilson-Hilferty: chi-square with df degrees of freedom exceeds df*(1 - 2/(9df) + 6.5*sqrt(2/(9df)))^3 with probability < 1e-10
+		limit := df * math.Pow(1-2/(9*df)+6.5*math.Sqrt(2/(9*df)), 3)
+		if chi > limit {
+			c.AddViolation(fw.Finding{Index: -1, Msg: fmt.Sprintf("the first draws of %d fresh processes: %s are not independent: chi-square %.1f with %.0f degrees of freedom over %.0f pairs (limit %.1f) - the uniform family and the normal family do not draw from independent streams", int(total)/64, kind, chi, df, total, limit)})
+		}
+	}
+	cov["first_draw_independence_tables_tested"] = tested
+}
+
 func runC18(c *fw.Ctx) {
 	target := c.Pick(40000, 2000000)
 	for _, d := range c18Specs() {
 		d := d
-		c.Case(func(k *fw.K) { c18Dist(k, d, target) })
+		c.Case(func(k *fw.K) { c18FirstDraws(k, int64(c.Shard)); c18Dist(k, d, target) })
 	}
-	c.Case(func(k *fw.K) { c18Full(k) })
-	c.Case(func(k *fw.K) { c18Reconstruct(k) })
+	c.Case(func(k *fw.K) { c18FirstDraws(k, int64(c.Shard)); c18Full(k) })
+	c.Case(func(k *fw.K) { c18FirstDraws(k, int64(c.Shard)); c18Reconstruct(k) })
+	c.Case(func(k *fw.K) { c18FirstDraws(k, int64(c.Shard)); c18CrossFamily(k, c.Pick(20000, 200000)) })
 	// large tensors: freshness inside one tensor (no repeated blocks / rows), moments, support
 	for _, d := range c18Specs() {
 		if d.params == "nil config" || d.params == "[0,1)" || d.params == "mean 0 sigma 1" || d.params == "fanIn 3" || d.params == "fanIn 2 fanOut 3" {
 			d := d
-			c.Case(func(k *fw.K) { c18Large(k, d, c.Quick()) })
+			c.Case(func(k *fw.K) { c18FirstDraws(k, int64(c.Shard)); c18Large(k, d, c.Quick()) })
 		}
 	}
+}
+
+// c18CrossFamily: draws of the uniform family and draws of the normal family made in the same process are independent of EACH
+// OTHER: the k-th uniform draw says nothing about the (k+s)-th normal draw for small shifts s (two generators started from one
+// seed would tie them together). Statistic: correlation of u_k with the sign and with the probability transform of z_(k+s).
+func c18CrossFamily(k *fw.K, n int) {
+	xrand.Seed(uint64(k.Rng.Int63()))
+	k.Case = map[string]any{"scenario": "independence between uniform-family and normal-family draws of one process", "draws_per_family": n}
+	k.Key("cross-family")
+	var us, zs []float64
+	xu := mustInit(initializers.NewXavierUniform(&initializers.XavierUniformConfig{FanIn: 3, FanOut: 3}))
+	hn := mustInit(initializers.NewHeNormal(&initializers.HeNormalConfig{FanIn: 2}))
+	for len(us) < n {
+		m := 50 + k.Rng.Intn(200)
+		var tu, tz tensor.Tensor
+		var err error
+		_ = xu
+		tu, err = tensor.RandU([]int{m}, 0, 1, nil) // [0,1): the dyadic fractional parts below are exact functions of the draw
+		if err == nil {
+			if len(us)%2 == 0 {
+				tz, err = hn.Init([]int{m})
+			} else {
+				tz, err = tensor.RandN([]int{m}, 0, 1, nil)
+			}
+		}
+		if err != nil {
+			k.Failf("random constructor failed: %v", err)
+			return
+		}
+		u, e1 := rt.Read(tu)
+		z, e2 := rt.Read(tz)
+		if e1 != nil || e2 != nil {
+			k.Failf("unreadable: %v %v", e1, e2)
+			return
+		}
+		// rank-like transforms make the statistic independent of the configured scales
+		lo, hi := u.Data[0], u.Data[0]
+		for _, v := range u.Data {
+			lo, hi = math.Min(lo, v), math.Max(hi, v)
+		}
+		_ = lo
+		_ = hi
+		us = append(us, u.Data...)
+		zs = append(zs, z.Data...)
+	}
+	// scale-free transforms: the uniform draws are centred by their overall median, the normal draws reduced to their sign and |z| rank proxy
+	med := append([]float64(nil), us...)
+	sort.Float64s(med)
+	mid := med[len(med)/2]
+	cu := make([]float64, len(us))
+	for i, v := range us {
+		cu[i] = v - mid
+	}
+	sg, mag := make([]float64, len(zs)), make([]float64, len(zs))
+	for i, v := range zs {
+		sg[i] = 1
+		if v < 0 {
+			sg[i] = -1
+		}
+		mag[i] = math.Abs(v)
+	}
+	N := len(cu)
+	thr := 6.5 / math.Sqrt(float64(N-8))
+	// features of the uniform draw: the draw itself and its dyadic fractional parts frac(u * 2^m) (the finer bits of the draw)
+	feats := map[string][]float64{"value": cu}
+	for _, m := range []int{7, 14, 21, 28, 35, 42} {
+		f := make([]float64, N)
+		for i, v := range us {
+			x := math.Ldexp(v, m)
+			f[i] = x - math.Floor(x) - 0.5
+		}
+		feats[fmt.Sprintf("fractional part of u*2^%d", m)] = f
+	}
+	for shift := -4; shift <= 4; shift++ {
+		a0, b0 := 4, 4+shift
+		for fname, feat := range feats {
+			a := feat[a0 : N-4]
+			for name, other := range map[string][]float64{"sign": sg, "magnitude": mag} {
+				b := other[b0 : b0+len(a)]
+				if r := corr(a, b); math.Abs(r) > thr {
+					k.Failf("uniform-family draw k (%s) and the %s of normal-family draw k%+d of the same process are correlated: r = %v over %d pairs (threshold %v)", fname, name, shift, r, len(a), thr)
+					return
+				}
+				k.Count("statistical_checks", 1)
+			}
+		}
+	}
+	k.Count("samples", int64(2*N))
 }
 
 // c18Reconstruct: model code builds its initializers layer by layer - construct, Init, construct, Init ... within the same
